@@ -42,8 +42,10 @@ trait Val: Copy + std::fmt::Debug + lexical_core::FromLexical {
     const NAME: &'static str;
     fn same(a: Self, b: Self) -> bool;
     fn is_zero(self) -> bool;
+    /// Rust's own `FromStr` for the type (the grammar STANDARD is documented to accept)
+    fn std_parse(s: &str) -> Option<Self>;
 }
-macro_rules! val_int { ($($t:ty)*) => {$( impl Val for $t { const NAME: &'static str = stringify!($t); fn same(a: Self, b: Self) -> bool { a == b } fn is_zero(self) -> bool { self == 0 } } )*}; }
+macro_rules! val_int { ($($t:ty)*) => {$( impl Val for $t { const NAME: &'static str = stringify!($t); fn same(a: Self, b: Self) -> bool { a == b } fn is_zero(self) -> bool { self == 0 } fn std_parse(s: &str) -> Option<Self> { s.parse().ok() } } )*}; }
 val_int! { u8 u16 u32 u64 u128 usize i8 i16 i32 i64 i128 isize }
 impl Val for f32 {
     const NAME: &'static str = "f32";
@@ -53,6 +55,9 @@ impl Val for f32 {
     fn is_zero(self) -> bool {
         self == 0.0
     }
+    fn std_parse(s: &str) -> Option<Self> {
+        s.parse().ok()
+    }
 }
 impl Val for f64 {
     const NAME: &'static str = "f64";
@@ -61,6 +66,9 @@ impl Val for f64 {
     }
     fn is_zero(self) -> bool {
         self == 0.0
+    }
+    fn std_parse(s: &str) -> Option<Self> {
+        s.parse().ok()
     }
 }
 
@@ -95,6 +103,22 @@ fn judge<T: Val>(cx: &mut Cx, input: &[u8]) {
         (R::Ok(..), _) => viol(cx, "C11", "complete-ok-partial-differs", T::NAME, input, format!("complete={} partial={}", fmt(&rc), fmt(&rp))),
         (R::Err(_), R::Ok(_, n)) if *n == input.len() => viol(cx, "C11", "partial-full-complete-err", T::NAME, input, format!("complete={} partial={}", fmt(&rc), fmt(&rp))),
         _ => {},
+    }
+    // ---- C12: the STANDARD format accepts exactly Rust's FromStr grammar (plus the special strings, which FromStr has too)
+    if let Ok(text) = std::str::from_utf8(input) {
+        let std = T::std_parse(text);
+        match (&rc, std) {
+            (R::Ok(v, _), Some(w)) => {
+                if !T::same(*v, w) {
+                    viol(cx, "C12", "standard-value-differs-from-fromstr", T::NAME, input, format!("lexical {} core {w:?}", fmt(&rc)));
+                }
+                *cx.counts.entry("c12.fromstr-both-accept").or_insert(0) += 1;
+            },
+            (R::Err(_), None) => *cx.counts.entry("c12.fromstr-both-reject").or_insert(0) += 1,
+            (R::Ok(..), None) => viol(cx, "C12", "standard-accepts-what-fromstr-rejects", T::NAME, input, fmt(&rc)),
+            (R::Err(e), Some(w)) => viol(cx, "C12", "standard-rejects-what-fromstr-accepts", T::NAME, input, format!("{e:?}; core gives {w:?}")),
+            _ => {},
+        }
     }
     if let R::Ok(w, n) = &rp {
         if *n > 0 && *n < input.len() {
